@@ -84,6 +84,10 @@ def gen_cases(tier, seed):
                 names.add(s)
             elif rnd.random() < 0.15:
                 names.add(rnd.choice(["r#match", "r#type", "r#a1", "r#B", "r#fn", "r#x10", "r#x9"]))
+        # `B` next to `r#B` names one module twice (ranked equal, so their order is the input's): not a valid group
+        names = {x for x in names if not (x.startswith("r#") and x[2:] in names)}
+        if len(names) < 2:
+            names |= {"a1", "a2"}
         names = sorted(names)
         if form in ("mod", "extern") and any(x in ("r#match", "r#type", "r#fn") for x in names) and form == "extern":
             names = [x for x in names if not x.startswith("r#")] or ["a1", "a2"]
@@ -130,6 +134,23 @@ def gen_cases(tier, seed):
                 perm[lo], perm[hi] = (plain, al) if first_first else (al, plain)
             texts.append("\n".join(perm) + "\n")
         cases.append({"kind": "perms", "config": [["style_edition", rnd.choice(["2015", "2024"])]], "texts": texts, "names": paths, "form": "use_large"})
+    # one name in its plain and its raw spelling (r#foo / foo rank equal from style edition 2024 on), with and without aliases, next to
+    # longer paths through it: the equal-ranked spellings keep their relative order, every shuffle that keeps it gives one text
+    nraw = 10 if tier == "quick" else 120
+    for _ in range(nraw):
+        b = rnd.choice(["foo", "alpha", "x10", "Beta", "a1"])
+        cls = rnd.sample(["use %s as z;" % b, "use r#%s as y;" % b, "use %s;" % b, "use r#%s;" % b, "use %s as w;" % b], rnd.randint(2, 3))
+        others = rnd.sample(["use %s::bar;" % b, "use r#%s::baz;" % b, "use %s::r#qux;" % b, "use fop;", "use fon::x;", "use %s0;" % b, "use r#%sa;" % b], rnd.randint(1, 3))
+        decls = cls + others
+        texts = []
+        for _k in range(10):
+            perm = list(decls)
+            rnd.shuffle(perm)
+            idx = sorted(perm.index(x) for x in cls)
+            for i, x in zip(idx, cls):      # the equal-ranked spellings in one fixed relative order
+                perm[i] = x
+            texts.append("\n".join(perm) + "\n")
+        cases.append({"kind": "perms", "config": [["style_edition", rnd.choice(["2024", "2024", "2015"])]], "texts": texts, "names": decls, "form": "use_raw_alias"})
     # nested lists whose entries share leading segments and are not yet normalised (one-element lists, unsorted inner lists)
     nnest = 12 if tier == "quick" else 150
     for _ in range(nnest):
@@ -171,11 +192,15 @@ def gen_cases(tier, seed):
         rnd.shuffle(names)
         g1, g2 = names[:3], names[3:]
         decl = {"mod": "mod %s;", "extern": "extern crate %s;", "use": "use %s::y;"}[form]
-        boundary = rnd.choice(["blank", "macro_use", "skip", "other_kind"])
+        boundary = rnd.choice(["blank", "macro_use", "macro_use_list", "skip", "skip_old", "other_kind"])
         if boundary == "blank":
             mid = ""
         elif boundary == "macro_use":
             mid = "#[macro_use]\n" + (decl % "zz_macro")
+        elif boundary == "macro_use_list":
+            mid = rnd.choice(["#[macro_use(lazy_static)]\n", "#[macro_use(zq_one, zq_two)]\n", "#[doc(hidden)]\n#[macro_use(zq_m)]\n"]) + (decl % "zz_macro")
+        elif boundary == "skip_old":
+            mid = rnd.choice(["#[rustfmt_skip]\n", "#[cfg_attr(rustfmt, rustfmt::skip)]\n"]) + (decl % "zz_skip")
         elif boundary == "skip":
             mid = "#[rustfmt::skip]\n" + (decl % "zz_skip")
         else:
@@ -274,7 +299,7 @@ def oracle(c, r):
             if sets != [set(c["g1"]), set(c["g2"])]:
                 bad.append(("boundary_crossed", "%s declarations moved across a blank line (%r): %r -> %r" % (c["form"], c["config"], c["texts"][0], out)))
         else:
-            marker = {"macro_use": "zz_macro", "skip": "zz_skip", "other_kind": "zz_other" if c["form"] == "use" else "ZZ_OTHER"}[c["boundary"]]
+            marker = {"macro_use": "zz_macro", "macro_use_list": "zz_macro", "skip": "zz_skip", "skip_old": "zz_skip", "other_kind": "zz_other" if c["form"] == "use" else "ZZ_OTHER"}[c["boundary"]]
             m = pos(marker)
             if m < 0 or not (all(pos(x) < m for x in c["g1"]) and all(pos(x) > m for x in c["g2"])):
                 bad.append(("boundary_crossed", "%s declarations moved across a %s item (%r): %r -> %r" % (c["form"], c["boundary"], c["config"], c["texts"][0], out)))
@@ -307,6 +332,6 @@ def run(tier, seed, replay):
         imports="From V Require Import Base.Text C11.Ord C11.Model C11.Run.\nOpen Scope N_scope.",
         model_expr=model_expr,
         canon_model=canon_model, canon_impl=canon_impl, oracle=oracle, nontrivial=nontrivial,
-        rule="(a) version_sort comparison matrices + sort_by over identifier lists (alphabet a B _ 0 1 9 é b Z, leading zeros, numbers around 2^64) compared with the model; (b) compare_items matrices for generated mod / extern crate groups under style editions 2015/2021/2024; (c) end to end: every permutation of a group of 2..5 mod / extern crate / use declarations / use-list names, 10 shuffles of groups of 22..34 imports containing alias-only pairs (relative order of each pair kept), and 8 shuffles (at every level) of nested import lists with repeated leading segments, are formatted and must give one text. non-trivial = >= 3 elements (>= 6 permutations); distinct by hash",
+        rule="(a) version_sort comparison matrices + sort_by over identifier lists (alphabet a B _ 0 1 9 é b Z, leading zeros, numbers around 2^64) compared with the model; (b) compare_items matrices for generated mod / extern crate groups under style editions 2015/2021/2024; (c) end to end: every permutation of a group of 2..5 mod / extern crate / use declarations / use-list names, 10 shuffles of groups of 22..34 imports containing alias-only pairs (relative order of each pair kept), 10 shuffles of groups holding one name in its plain and raw spelling with and without aliases next to longer paths through it (relative order of the equal-ranked spellings kept), and 8 shuffles (at every level) of nested import lists with repeated leading segments, are formatted and must give one text. non-trivial = >= 3 elements (>= 6 permutations); distinct by hash",
         per_file=40,
     )
